@@ -80,7 +80,13 @@ type FuncContract struct {
 	Line      int
 	Consumes  []string // tokens consumed from caller by `go f()`
 	Effects   []GhostStep // ghost updates applied at function exit
+	CallAsserts []CallAssert
 	Opts      map[string]string
+}
+
+type CallAssert struct {
+	Callee string
+	Clause *Clause
 }
 
 type PredDef struct {
@@ -136,7 +142,7 @@ var topKeywords = map[string]bool{"func": true, "pred": true, "def": true, "fun"
 	"owned": true, "trusted": true, "immutable": true, "alloc": true, "lockorder": true, "chan": true, "env": true, "confined": true}
 var fnKeywords = map[string]bool{"requires": true, "ensures": true, "loop": true, "invariant": true, "decreases": true,
 	"step": true, "let": true, "mode": true, "modifies": true, "ghostvar": true, "mathint": true, "thread": true,
-	"pure": true, "unroll": true, "noinline": true, "consumes": true, "opt": true, "effect": true}
+	"pure": true, "unroll": true, "noinline": true, "consumes": true, "opt": true, "effect": true, "atcall": true}
 
 type rawDirective struct {
 	kw   string
@@ -521,6 +527,8 @@ func (cs *Contracts) loadFile(path string) error {
 					a.Closer = o[7:]
 				case strings.HasPrefix(o, "sender="):
 					a.Sender = o[7:]
+				case strings.HasPrefix(o, "guard="):
+					a.Guard = o[6:]
 				default:
 					return fail("bad chan attribute %q", o)
 				}
@@ -610,6 +618,17 @@ func (cs *Contracts) loadFile(path string) error {
 					return fail("%v", err)
 				}
 				curLoop.Steps = append(curLoop.Steps, GhostStep{Var: strings.TrimSpace(d.text[:i]), Expr: e, Src: d.text})
+			case "atcall":
+				// atcall <callee key>: <expr over caller locals and arg_<param>>
+				i := strings.Index(d.text, ":")
+				if i < 0 {
+					return fail("bad atcall")
+				}
+				c, err := parseClause(d, strings.TrimSpace(d.text[i+1:]))
+				if err != nil {
+					return err
+				}
+				cur.CallAsserts = append(cur.CallAsserts, CallAssert{Callee: strings.TrimSpace(d.text[:i]), Clause: c})
 			case "effect":
 				i := strings.Index(d.text, "=")
 				if i < 0 {
